@@ -1,31 +1,4 @@
-# Property table for ./check: which harness components exercise the property, which finite
-# tables are regenerated from the compiled source (T-table), stated assumptions.
-PROPS = {
-    "C09": {
-        "components": ["reseq"],
-        "tables": [],
-        "explanation": "Theorems over the model of Resequencer<T> for all start values, lengths <= 256, permutations and call sequences; model tied to srad-app/src/resequencer.rs by differential execution of the public API (exhaustive small spaces + random).",
-        "assumptions": [
-            "BTreeMap<u8,T> behaves as an ordered finite map (first_key_value/pop_first = least key)",
-            "the model (lean/SradModel/Model/Reseq.lean) reads resequencer.rs correctly; checked by correspondence on the explored cases only",
-        ],
-    },
-    "C10": {
-        "components": ["codec"],
-        "tables": ["KindTable"],
-        "explanation": "Round-trip and encoded-form theorems for all 13 scalar types, all array codecs (every length, every bit pattern) and datatype-directed decoding over the codec model; the try_from_metric_value decision table is regenerated from the compiled crate on every run and closed by `decide +kernel`; model tied to value.rs by differential execution (exhaustive 8/16-bit values, all boolean arrays up to a length, every array length 0..=64, random).",
-        "assumptions": [
-            "Rust to_le_bytes/from_le_bytes/`as` casts are as modelled (bit patterns); String::from_utf8 = Lean's String.fromUTF8? (compared on every generated string)",
-            "the four wrapper kinds share the modelled variant constructors; tied by executing all four",
-        ],
-    },
-    "C19": {
-        "components": ["codec"],
-        "tables": [],
-        "explanation": "Totality (never the explicit panic outcome), allocation bound and length-exactness theorems for every array decoder and for datatype-directed decoding, for all byte strings; model tied to value.rs by exhaustive short byte strings into all 13 decoders plus structured/mutated inputs, each run under catch_unwind with the Vec capacity checked.",
-        "assumptions": [
-            "Vec::with_capacity(n) reserves n elements (modelled as the `alloc` field)",
-            "property sets, template values, command payloads and STATE JSON decoders are covered by the models M3/M4/M6/M7 as they are added (see DESIGN.md)",
-        ],
-    },
-}
+# Property table for ./check (data in checkcfg.json): which harness components exercise the
+# property, which finite tables are regenerated from the compiled source (T-table), assumptions.
+import json, os
+PROPS = json.load(open(os.path.join(os.path.dirname(os.path.abspath(__file__)), "checkcfg.json")))
